@@ -135,12 +135,7 @@ def run(prog, rep):
             rep.violation('R4', loc(iface.module, rci), 'Interface.remove_child_interface', 'sub-interface not disconnected before the removal',
                           'a sub-interface that is connected to a service is removed together with its link, but the service-side port created '
                           'for it stays in the service without a peer: the peering artefacts of the removed element must go with it')
-    calls = [c for c in walk_no_nested(rci) if isinstance(c, ast.Call) and call_name(c) == 'remove_cp_and_links']
-    rep.instance('R2', f'Interface.remove_child_interface: {norm(calls[0], 100) if calls else None}')
-    dpv = kwarg(calls[0], 'delete_parent') if calls else None
-    if not calls or dpv is None or not (isinstance(dpv, ast.Constant) and dpv.value is False):
-        rep.violation('R2', loc(iface.module, rci), 'Interface.remove_child_interface', 'delete_parent=False not passed',
-                      'removing the last sub-interface of a dedicated port also deletes the port itself (which belongs to the NIC)')
+    check_child_removal_keeps_parent(prog, rep, 'R2')
     fnd = [c for c in walk_no_nested(rci) if isinstance(c, ast.Call) and call_name(c) == 'find_child_connection_point_by_name']
     if not fnd or ast.unparse(kwarg(fnd[0], 'parent_node_id') or ast.Constant(None)) != 'self.node_id':
         rep.violation('R2', loc(iface.module, rci), 'Interface.remove_child_interface', 'child not looked up under this interface', 'the child must be found among the children of this interface')
@@ -351,6 +346,35 @@ def check_cache_after_removal(prog, rep, rule):
                                   f'{tgt_owner}._interfaces is rebuilt from {srcs} instead of from {tgt_owner}._interfaces: the handle '
                                   f'ends up with another object\'s interfaces')
 
+
+
+def check_child_removal_keeps_parent(prog, rep, rule):
+    """Removing a sub-interface never takes the parent port with it: Interface.remove_child_interface calls the connection
+    point remover with the ``delete_parent`` switch off (explicitly - its default is on, for whole-port removal). Shared
+    with C07 (a parent port deleted behind its service port leaves that service port without a peer)."""
+    iface = prog.cls('fim.user.interface:Interface')
+    rci = iface.methods.get('remove_child_interface')
+    if rci is None:
+        raise AnalysisError('Interface.remove_child_interface vanished')
+    rci = inline(prog, iface, rci)
+    env = local_env(rci)
+    calls = [c for c in walk_no_nested(rci) if isinstance(c, ast.Call) and call_name(c) == 'remove_cp_and_links']
+    rep.instance(rule, f'Interface.remove_child_interface: {norm(calls[0], 100) if calls else None}')
+    asm = prog.cls('fim.graph.slices.abc_asm:ABCASMPropertyGraph')
+    _, target = asm.find_method('remove_cp_and_links')
+    params = [a.arg for a in target.args.args if a.arg != 'self'] if target is not None else ['node_id', 'delete_parent']
+    for c in calls or [None]:
+        dpv = None
+        if c is not None:
+            dpv = kwarg(c, 'delete_parent')
+            if dpv is None and 'delete_parent' in params and len(c.args) > params.index('delete_parent'):
+                dpv = c.args[params.index('delete_parent')]
+            if dpv is not None:
+                dpv = expand(dpv, env)
+        if c is None or dpv is None or not (isinstance(dpv, ast.Constant) and dpv.value is False):
+            rep.violation(rule, loc(iface.module, c if c is not None else rci), 'Interface.remove_child_interface', 'delete_parent=False not passed',
+                          'removing the last sub-interface of a dedicated port also deletes the port itself (which belongs to the NIC) and the '
+                          'links attached to it; a service port that peered with the parent port is left without a peer')
 
 
 def check_cp_remover(prog, rep, rule):
